@@ -147,6 +147,25 @@ ROUND7 = {
 }
 
 
+# sentences added per round-8 addition (DESIGN.md section 4h)
+ROUND8 = {
+ "C02": "List sizes across the 8/16-bit header boundary for the reference decoder; several frames, some deflated, through one decoder object.",
+ "C03": "Retry answers for media originals keep the media kind; own registration ids with 1, 7 and 8 hex digits in retry requests.",
+ "C06": "Two requests of different kinds outstanding with library-chosen ids; a text message stanza without content.",
+ "C07": "Protocol messages without a message key; encrypted messages whose payload only has fields newer than the schema.",
+ "C09": "Lists of 255..257 members through the real codec; media messages of an unlisted kind.",
+ "C10": "Two replies in one process naming the same quoted stanza id.",
+ "C12": "The keep-alive's timeout as a fault (recording lock in the iq layer); the blocking socket dispatcher in the reconnect cases.",
+ "C13": "Confirmed uploads with sparse, unordered ids; a store file whose records an older installation stored as text.",
+ "C14": "Confirmation recorded through the manager with debug logging on; a store file with the prekeys table of the released version.",
+ "C15": "Content handed over as a bytearray; the concrete sweep covers lengths around multiples of 64 KiB.",
+ "C17": "The first group message (two envelopes) of a reinstalled member under auto-trust.",
+ "C18": "Interface lookup with a layer class and a subclass of it in one stack; empty payloads.",
+ "C19": "Binary values whose first or last byte is a whitespace character.",
+ "C20": "The environment selected by name over three selections.",
+}
+
+
 def main():
     checks = []
     for pid in ALL:
@@ -159,7 +178,7 @@ def main():
             "evidence_file": "evidence/%s.json" % pid,
             "replay_cmd_template": "bin/check %s --replay {path}" % pid,
             "engine": "sx",
-            "level_claimed": {"category": c["cat"], "text": (c["text"] + " " + ROUND5.get(pid, "") + " " + ROUND6.get(pid, "") + " " + ROUND7.get(pid, "")).strip(), "design_ref": "DESIGN.md section " + c["design"]},
+            "level_claimed": {"category": c["cat"], "text": (c["text"] + " " + ROUND5.get(pid, "") + " " + ROUND6.get(pid, "") + " " + ROUND7.get(pid, "") + " " + ROUND8.get(pid, "")).strip(), "design_ref": "DESIGN.md section " + c["design"]},
             "level_note": c["note"],
             "technique": c["technique"],
         })
